@@ -190,6 +190,35 @@ func extractFunc(f Facts, fset *token.FileSet, info *types.Info, dir, fn string,
 				}
 				return
 			case *ast.CaseClause:
+				if fn == "PrimitiveTypeFromJSONSchemaType" && len(t.List) > 0 {
+					// the format table of the string branch: the labels of every clause made of string literals, the kind of
+					// type built in it and every string literal inside (package path, type name)
+					var labels []string
+					for _, e := range t.List {
+						if bl, ok := e.(*ast.BasicLit); ok && bl.Kind == token.STRING {
+							labels = append(labels, bl.Value)
+						}
+					}
+					if len(labels) == len(t.List) {
+						kind, lits := "", []string{}
+						for _, st := range t.Body {
+							ast.Inspect(st, func(m ast.Node) bool {
+								switch x := m.(type) {
+								case *ast.CompositeLit:
+									if kind == "" {
+										kind = text(fset, x.Type)
+									}
+								case *ast.BasicLit:
+									if x.Kind == token.STRING {
+										lits = append(lits, x.Value)
+									}
+								}
+								return true
+							})
+						}
+						f["stringFormats"] = append(f["stringFormats"], "case "+strings.Join(labels, ", ")+": "+kind+" "+strings.Join(lits, " "))
+					}
+				}
 				if strings.HasPrefix(fn, "adjustFor") {
 					for _, e := range t.List {
 						f["intLimits"] = append(f["intLimits"], fn+": case "+text(fset, e))
